@@ -258,6 +258,8 @@ type evidence struct {
 // RunProperty executes one property, writes evidence and returns the exit code.
 func RunProperty(p *Prog, prop *Property, tier string, seed int, evidencePath, findingsPath string, start time.Time, extra map[string]any) int {
 	c := newCtx(p, prop, tier)
+	// the rename table is per tree; another tree may have been loaded since p was
+	DetectRenames(p.Repo)
 	func() {
 		defer func() {
 			if r := recover(); r != nil {
@@ -275,7 +277,9 @@ func RunProperty(p *Prog, prop *Property, tier string, seed int, evidencePath, f
 			unanch++
 		}
 	}
-	if anchored := len(c.Obls) - unanch; prop.Floor > 0 && anchored*100 < prop.Floor*85 {
+	// (the floors were confirmed for the default build configuration; under an additional
+	// configuration parts of a rule set, e.g. the compiler-based panic inventory, are skipped)
+	if anchored := len(c.Obls) - unanch; p.Config == "" && prop.Floor > 0 && anchored*100 < prop.Floor*85 {
 		c.Undecided("floor", "obligation-count", fmt.Sprintf("%d anchored obligations generated (%d unanchored), hand-confirmed floor is %d: more than 15%% of the rule set has nothing to examine", anchored, unanch, prop.Floor))
 	}
 	if len(c.Obls) == 0 {
